@@ -27,6 +27,9 @@ VALID = [
     ["-o", "csv", "--select", ".=v"],
     ["-o", "text", "--select", ".=v", "--headers"],
     ["--take", "2"],
+    ["--split-by", "(push [] . .)"],
+    ["--split-by", "(push [] .)", "--select", ".=v"],
+    ["--set", "one=1", "--filter", "true"],
 ]
 INVALID = [
     ["--select", "(len . ."],
@@ -58,6 +61,12 @@ def gen_unit(rng):
     if rng.random() < 0.4:
         u["gaps"] = [[] for _ in u["gaps"]]
     valid = rng.random() < 0.7
+    if rng.random() < 0.2:
+        # rows far above the size of any line buffer between jawk and its stdout: a failed write of such a row leaves nothing
+        # behind that a later flush could stumble over again
+        big = [b'"' + b"x" * 3000 + b'"', b'{"k":"' + b"y" * 5000 + b'","n":1}', b"[" + b",".join([b"1234567890"] * 400) + b"]"]
+        u["values"] = [rng.choice(big) if rng.random() < 0.8 else v for v in u["values"]] or [rng.choice(big)]
+        u["gaps"] = [[] for _ in range(len(u["values"]) + 1)]
     return {"values": u["values"], "gaps": u["gaps"], "wsseed": u["wsseed"], "policy": rng.choice(POLICIES), "valid": valid,
             "config": rng.choice(VALID if valid else INVALID), "sep": rng.choice(SEPS), "sink": rng.choice(["pipe", "pipe", "closed", "full"])}
 
@@ -188,6 +197,20 @@ def run_unreadable(ctx, unit):
             p = subprocess.run([binary, good, os.path.join(d, "missing.json")] + args, stdin=subprocess.DEVNULL, stdout=subprocess.PIPE, stderr=subprocess.PIPE, timeout=60)
             # a later input that is never needed (the limit was reached before) need not be looked at
             must_fail = "--take" not in unit["config"]
+        elif kind in ("socket-file", "socket-in-directory"):
+            # something that exists, is no directory and cannot be opened (a UNIX socket): an input failure under every policy
+            import socket
+            os.makedirs(os.path.join(d, "in"))
+            os.rename(good, os.path.join(d, "in", "a.json"))
+            good = os.path.join(d, "in", "a.json")
+            sk = socket.socket(socket.AF_UNIX)
+            try:
+                sk.bind(os.path.join(d, "in", "sock"))
+                target = [good, os.path.join(d, "in", "sock")] if kind == "socket-file" else [os.path.join(d, "in")]
+                p = subprocess.run([binary] + target + args, stdin=subprocess.DEVNULL, stdout=subprocess.PIPE, stderr=subprocess.PIPE, timeout=60)
+            finally:
+                sk.close()
+            must_fail = "--take" not in unit["config"]
         elif kind in READABLE_LAYOUTS:
             # inputs that CAN be read, reached in a roundabout way: status 0, nothing on stderr, the rows of the plain file
             real = os.path.join(d, "real", "deeper")
@@ -256,7 +279,7 @@ def worker(ctx):
             st.count("stopped_by_deadline")
             break
         if ctx.rng.random() < 0.2:
-            unit = {"unreadable": ctx.rng.choice(["stdin-directory", "missing-file", "missing-second-file", "unreadable-file"] + READABLE_LAYOUTS),
+            unit = {"unreadable": ctx.rng.choice(["stdin-directory", "missing-file", "missing-second-file", "unreadable-file", "socket-file", "socket-in-directory"] + READABLE_LAYOUTS),
                     "policy": ctx.rng.choice(POLICIES), "config": ctx.rng.choice(VALID), "values": [], "gaps": [[]], "wsseed": 0, "sep": "\n", "sink": "pipe",
                     "valid": True}
             run_unreadable(ctx, unit)
